@@ -131,9 +131,11 @@ std::vector<TecmpPayloadPtr> TECMP::Decoder::GetInterfacePayload(const uint8_t* 
     // Get base values
     InterfacePayload payload;
     std::size_t busDataOffset = 12;
+    if (size < busDataOffset)
+        return payloads;
     payload.setGenericData(payloadData);
 
-    while (size - busDataOffset >= 12)
+    while (busDataOffset + 12 <= size)
     {
         auto tempPayload = payload;
         tempPayload.setBusData(payloadData + busDataOffset, 12);
